@@ -29,3 +29,4 @@ import RenetVerif.Props.SrcTieNcConnToken
 import RenetVerif.Props.SrcTieConn
 import RenetVerif.Props.SrcTieConnSend
 import RenetVerif.Props.SrcTieConnRecv
+import RenetVerif.Props.SrcTieServer
